@@ -257,4 +257,117 @@ def burstKaitai (d : Bytes) : Except Err View :=
   | .error e => .error e
   | .ok x => burstOf x
 
+/-! ### histories: the `HyteraIPSC` objects a caller keeps, re-stamps and serialises
+
+Both decoders are *functions of the octets*: every call hands out a **new** object (a new handle of
+the `Heap`), no object is shared between two results and nothing the caller later does to a result
+(the attributes are plain, "exposed to be possibly changed by implementing party") reaches another
+result or a later decode.  `Burst.from_hytera_ipsc` keeps the object it decoded as `burst.hytera_ipsc`;
+when the `Burst` constructor refuses the payload nothing is handed out. -/
+
+/-- the public attributes of a `HyteraIPSC` object -/
+inductive Field
+  | callType | frameType | packetType | slotType | timeslot | seq | cc | dst | src
+  | payload | pad | firstHeader | secondHeader | reserved3 | reserved7a | reserved2a | reserved2b | reserved1
+  deriving DecidableEq, Repr
+
+/-- a value assigned by the caller: an integer (member index for the five enumeration attributes) or octets -/
+inductive Val
+  | nat (n : Nat)
+  | bytes (b : Bytes)
+  deriving DecidableEq, Repr
+
+/-- `o.<attribute> = v` (an assignment of the other kind of value is outside the model: no change) -/
+def Ipsc.set (x : Ipsc) : Field → Val → Ipsc
+  | .callType, .nat n => { x with callType := n }
+  | .frameType, .nat n => { x with frameType := n }
+  | .packetType, .nat n => { x with packetType := n }
+  | .slotType, .nat n => { x with slotType := n }
+  | .timeslot, .nat n => { x with timeslot := n }
+  | .seq, .nat n => { x with seq := n }
+  | .cc, .nat n => { x with cc := n }
+  | .dst, .nat n => { x with dst := n }
+  | .src, .nat n => { x with src := n }
+  | .payload, .bytes b => { x with payload := b }
+  | .pad, .bytes b => { x with pad := b }
+  | .firstHeader, .bytes b => { x with firstHeader := b }
+  | .secondHeader, .bytes b => { x with secondHeader := b }
+  | .reserved3, .bytes b => { x with reserved3 := b }
+  | .reserved7a, .bytes b => { x with reserved7a := b }
+  | .reserved2a, .bytes b => { x with reserved2a := b }
+  | .reserved2b, .bytes b => { x with reserved2b := b }
+  | .reserved1, .bytes b => { x with reserved1 := b }
+  | _, _ => x
+
+/-- the objects handed out so far; a handle is the position -/
+structure Heap where
+  cells : List Ipsc
+
+namespace Heap
+
+def empty : Heap := ⟨[]⟩
+def size (h : Heap) : Nat := h.cells.length
+/-- current content of object `r` -/
+def read (h : Heap) (r : Nat) : Option Ipsc := h.cells[r]?
+/-- a new object; its handle is the old `size` -/
+def push (h : Heap) (x : Ipsc) : Heap := ⟨h.cells ++ [x]⟩
+/-- the caller changes object `r` in place (nothing happens for a handle never handed out) -/
+def write (h : Heap) (r : Nat) (x : Ipsc) : Heap := ⟨h.cells.set r x⟩
+
+end Heap
+
+/-- one step of a caller's history -/
+inductive HOp
+  /-- `HyteraIPSC.from_ipsc_bytes(d)` -/
+  | decRaw (d : Bytes)
+  /-- `HyteraIPSC.from_kaitai(IpSiteConnectProtocol.from_bytes(d))` -/
+  | decKai (d : Bytes)
+  /-- `Burst.from_hytera_ipsc(d).hytera_ipsc` -/
+  | burstRaw (d : Bytes)
+  /-- `Burst.from_hytera_ipsc(IpSiteConnectProtocol.from_bytes(d)).hytera_ipsc` -/
+  | burstKai (d : Bytes)
+  /-- the caller assigns an attribute of object `r` -/
+  | set (r : Nat) (f : Field) (v : Val)
+  /-- `as_ipsc_bytes()` of object `r`: octets are returned, no object is handed out or touched -/
+  | ser (r : Nat)
+
+namespace HOp
+
+/-- the handle an operation writes to, if any -/
+def target : HOp → Option Nat
+  | set r _ _ => some r
+  | _ => none
+
+/-- a decoder hands out its result, or nothing when it raises -/
+def handOut (h : Heap) : Except Err Ipsc → Heap
+  | .ok x => h.push x
+  | .error _ => h
+
+/-- the object `Burst.from_hytera_ipsc` keeps: the decoded one, provided the burst is built -/
+def kept (r : Except Err Ipsc) : Except Err Ipsc :=
+  match r with
+  | .error e => .error e
+  | .ok x => match burstOf x with
+    | .error e => .error e
+    | .ok _ => .ok x
+
+def run (h : Heap) : HOp → Heap
+  | decRaw d => handOut h (fromIpscBytes d)
+  | decKai d => handOut h (kaitaiPath d)
+  | burstRaw d => handOut h (kept (fromIpscBytes d))
+  | burstKai d => handOut h (kept (kaitaiPath d))
+  | set r f v =>
+    match h.read r with
+    | some x => h.write r (x.set f v)
+    | none => h
+  | ser _ => h
+
+end HOp
+
+/-- a whole history -/
+def runHistory (h : Heap) (ops : List HOp) : Heap := ops.foldl HOp.run h
+
+/-- the four decoder entry points applied to the same octets -/
+def decoders (d : Bytes) : List HOp := [.decRaw d, .decKai d, .burstRaw d, .burstKai d]
+
 end Dmr.Ipsc
